@@ -102,3 +102,49 @@ func (w *WalletManager) VerifKeystoreManager() *keystore.KeystoreManager { retur
 
 // VerifDB returns the wallet database handle the manager was built on.
 func (w *WalletManager) VerifDB() mwdb.DB { return w.db }
+
+// VerifDigest is the cheap projection of the wallet database that a trace event carries: the
+// blocks the wallet has applied from height `from` upwards, the status records and the mined
+// balances, all read through the given (possibly still open, uncommitted) transaction with the
+// stores' own readers.
+type VerifDigest struct {
+	SyncedHeight uint64
+	Chain        []wire.Hash // Chain[i] is the block applied at height from+i
+	Status       map[string][2]uint64
+	Balances     map[string]int64
+}
+
+func (w *WalletManager) VerifDigest(tx mwdb.DBTransaction, from uint64) (*VerifDigest, error) {
+	d := &VerifDigest{Status: map[string][2]uint64{}, Balances: map[string]int64{}}
+	bm, err := w.syncStore.SyncedTo(tx)
+	if err != nil {
+		return nil, err
+	}
+	d.SyncedHeight = bm.Height
+	for h := from; h <= bm.Height; h++ {
+		b, err := w.syncStore.SyncedBlock(tx, h)
+		if err != nil {
+			return nil, err
+		}
+		if b == nil {
+			d.Chain = append(d.Chain, wire.Hash{})
+			continue
+		}
+		d.Chain = append(d.Chain, b.Hash)
+	}
+	wss, err := w.syncStore.GetAllWalletStatus(tx)
+	if err != nil {
+		return nil, err
+	}
+	for _, ws := range wss {
+		d.Status[ws.WalletID] = [2]uint64{ws.SyncedHeight, uint64(ws.Flags)}
+	}
+	bals, err := w.utxoStore.FetchAllMinedBalance(tx)
+	if err != nil {
+		return nil, err
+	}
+	for id, a := range bals {
+		d.Balances[id] = a.IntValue()
+	}
+	return d, nil
+}
